@@ -5,6 +5,7 @@ import glob
 import itertools
 import os
 import posixpath
+import shutil
 import signal
 import tempfile
 
@@ -23,6 +24,8 @@ THEOREMS = [
     (NS + "C17_clean_relative_accepted", "full"),
     (NS + "C17_root_normalised", "full"),
     (NS + "C17_backslash_is_separator", "full"),
+    (NS + "C17_leading_separator_refused", "full"),
+    (NS + "C17_dot_segments_refused", "full"),
     (NS + "C17_unrepaired_escapes", "witness"),
 ]
 ASSUMPTIONS = [
@@ -45,7 +48,7 @@ RULE = ("(cwd, root, name) triples: names = exhaustive sequences over the advers
 
 SEGS = ["..", ".", "", "a", "b c", "C:", "~", "%2e%2e", "\u00e9\u4e2d", "...", ".a", "\U0001f600x"]
 SEPS = ["/", "\\", "//"]
-PREFIXES = ["", "/", "//", "///", "\\", "\\\\", "C:/", "C:\\", "/./", "./", "../"]
+PREFIXES = ["", "/", "//", "///", "////", "\\", "\\\\", "C:/", "C:\\", "/./", "./", "../"]
 ROOTS = ["/srv/www", "/srv/www/", "/", "//", "///", "", ".", "..", "www", "www/", "./www", "../www",
          "/srv/../www", "//srv", "//srv/", "///srv", "/srv//www", "a/b/../c", "/a b/\u00e9", "C:\\www",
          "\\srv\\www", "/srv/www/.", "/srv/www/..", "~", "/..", "/../..", "//..", "a/..", "../..", "/srv/www//",
@@ -242,6 +245,40 @@ def exhaustive_names(maxseg):
                         yield pre + body + sp
 
 
+def small_alphabet(maxlen, alphabet="/.a"):
+    """every string over a three-letter alphabet up to maxlen: all slash / dot / name patterns"""
+    for k in range(0, maxlen + 1):
+        for t in itertools.product(alphabet, repeat=k):
+            yield "".join(t)
+
+
+def classify(ctx, root, name, out):
+    """distribution of the generated triples over the branches of the anchored code / model"""
+    fr, fn = root.replace("\\", "/"), name.replace("\\", "/")
+    parts = fn.split("/")
+    ctx.count("root:" + ("empty" if not fr else "two-slash" if fr.startswith("//") and not fr.startswith("///")
+                         else "absolute" if fr.startswith("/") else "relative"))
+    if ".." in fr.split("/"):
+        ctx.count("root:has-dotdot")
+    if fr.endswith("/"):
+        ctx.count("root:trailing-slash")
+    if fn.startswith("/"):
+        ctx.count("name:leading-separator")
+    if ".." in parts:
+        ctx.count("name:dotdot-segment")
+    if "." in parts:
+        ctx.count("name:dot-segment")
+    if "" in parts[1:] and fn:
+        ctx.count("name:empty-segment")
+    if "\\" in name:
+        ctx.count("name:backslash")
+    if not fn:
+        ctx.count("name:empty")
+    if any(".." in p and p != ".." for p in parts):
+        ctx.count("name:dotdot-inside-a-name")
+    ctx.count("pjs:" + out.split()[0])
+
+
 # ------------------------------------------------------------------ monitor
 
 def monitor(impl, case, ctx):
@@ -259,17 +296,30 @@ def monitor(impl, case, ctx):
                     info)
         return
     info["result"] = p
-    R = impl.with_cwd(cwd, lambda: os.path.abspath(root.replace("\\", "/")))
+    froot = root.replace("\\", "/")
+    if p.startswith("/") or froot.startswith("/"):
+        R = impl.with_cwd(cwd, lambda: os.path.abspath(froot))
+    else:
+        # a relative result for a relative root is judged in the same (relative) frame; the real function
+        # never gets here (it returns abspath), only a drifted version could
+        R = os.path.normpath(froot)
+        ctx.count("monitor:relative-result")
     info["abspath_root"] = R
-    beneath = (p == R) or p.startswith(R if R.endswith("/") else R + "/")
+    if R == ".":                # relative frame only: everything that does not climb is beneath "."
+        beneath = not (p == ".." or p.startswith("../") or p.startswith("/"))
+    else:
+        beneath = (p == R) or p.startswith(R if R.endswith("/") else R + "/")
     # commonpath drops the implementation-defined second leading slash, so compare with commonpath([R])
-    common = os.path.commonpath([R, p]) == os.path.commonpath([R])
+    try:
+        common = os.path.commonpath([R, p]) == os.path.commonpath([R])
+    except ValueError:          # absolute / relative mix: no common path
+        common = False
     if not (beneath and common):
         ctx.failure("escapes-root", "path_join_safe(%r, %r) returned %r which is not %r or beneath it (cwd %r)"
                     % (root, name, p, R, cwd), info)
         return
     comps = p.lstrip("/").split("/") if p.strip("/") else []
-    if os.path.normpath(p) != p or any(c in ("", ".", "..") for c in comps):
+    if os.path.normpath(p) != p or (p.startswith("/") and any(c in ("", ".", "..") for c in comps)):
         ctx.failure("not-normalised", "path_join_safe(%r, %r) returned %r which is not normalised" % (root, name, p), info)
         return
     ctx.count("monitor:" + ("is-root" if p == R else "beneath"))
@@ -303,11 +353,26 @@ def run(ctx):
     signal.alarm(ctx.scale(600, 3000))
 
     start_dir = os.getcwd()
-    tmp = tempfile.mkdtemp(prefix="c17-")
-    odd = os.path.join(tmp, "b c \u00e9")
-    os.makedirs(os.path.join(odd, "deep", "er"))
-    real_dirs = ["/", tmp, odd, os.path.join(odd, "deep", "er"), start_dir]
+    tmp = None
+    real_dirs = ["/", start_dir, os.path.dirname(start_dir)]
+    try:
+        tmp = tempfile.mkdtemp(prefix="c17-")
+        odd = os.path.join(tmp, "b c \u00e9")
+        os.makedirs(os.path.join(odd, "deep", "er"))
+        real_dirs += [tmp, odd, os.path.join(odd, "deep", "er")]
+    except OSError:
+        ctx.notes["tmpdir"] = "no temporary directory available: real-chdir runs use existing directories only"
 
+    try:
+        _run(ctx, impl, rng, real_dirs)
+    finally:
+        signal.alarm(0)
+        os.chdir(start_dir)
+        if tmp:
+            shutil.rmtree(tmp, ignore_errors=True)
+
+
+def _run(ctx, impl, rng, real_dirs):
     # 0. corpus (the defect witnesses) first: correspondence + monitor
     corpus = load_corpus()
     ctx.count("gen:corpus", len(corpus))
@@ -316,7 +381,6 @@ def run(ctx):
         for c in corpus:
             monitor(impl, c, ctx)
             if ctx.failures:
-                signal.alarm(0)
                 return
     cases = []
     triples = []
@@ -333,11 +397,23 @@ def run(ctx):
     for name in exhaustive_names(ctx.scale(1, 3)):
         triples.append(("exhaustive", rng.choice(PATCHED_CWDS), rand_root(rng), name))
 
+    # 2b. every string over {'/', '.', 'a'} up to a length, as name (and, rotated, as root)
+    small = list(small_alphabet(ctx.scale(6, 9)))
+    for i, name in enumerate(small):
+        root = small[(i * 7919) % len(small)] if i % 3 == 0 else rng.choice(ROOTS)
+        triples.append(("small-alphabet", rng.choice(PATCHED_CWDS), root, name))
+
     # 3. random sequences up to 6 segments with mixed separators; random unicode
     for _ in range(ctx.scale(2500, 120000)):
         triples.append(("segments", rng.choice(PATCHED_CWDS), rand_root(rng), rand_segname(rng)))
     for _ in range(ctx.scale(800, 40000)):
         triples.append(("unicode", rng.choice(PATCHED_CWDS), rand_root(rng), rand_unicode(rng)))
+
+    # 3b. long names (hundreds of segments): nothing in the function depends on length
+    for _ in range(ctx.scale(6, 60)):
+        k = rng.choice([200, 500, 1000])
+        name = rng.choice(SEPS).join(rng.choice(["a", "b c", "", "\u00e9", "...", rng.choice(SEGS)]) for _ in range(k))
+        triples.append(("long", rng.choice(PATCHED_CWDS), rand_root(rng), name))
 
     # 4. captures of the real router for random request URIs
     want = ctx.scale(800, 40000)
@@ -375,7 +451,10 @@ def run(ctx):
     real_cases = []
     per_dir = ctx.scale(150, 3000)
     for k, d in enumerate(real_dirs):
-        os.chdir(d)
+        try:
+            os.chdir(d)
+        except OSError:
+            continue
         cwd = os.getcwd()
         picks = [triples[rng.randrange(len(triples))] for _ in range(per_dir)]
         batch = [make_case("r%d_%d" % (k, i), cwd, root, name) for i, (_s, _c, root, name) in enumerate(picks)]
@@ -388,7 +467,6 @@ def run(ctx):
         real_cases.extend(batch)
         if bad or ctx.failures:
             break
-    os.chdir(start_dir)
 
     if not ctx.failures:
         chunk = 20000
@@ -402,15 +480,40 @@ def run(ctx):
             if ctx.failures or ctx.disagreements:
                 break
 
-    for c in cases[:: max(1, len(cases) // 5000)]:
+    for c in cases[:: max(1, len(cases) // 20000)]:
         o = impl.run_case(c)
-        ctx.count("pjs:" + o[-1].split()[0])
-    signal.alarm(0)
+        _cwd, root, name = triple_of(c)
+        classify(ctx, root, name, o[-1])
     ctx.notes["triples"] = len(triples)
     ctx.notes["real_dirs"] = len(real_dirs)
     ctx.notes["python"] = "posixpath.normpath is %s" % ("posix._path_normpath (C)" if hasattr(__import__("posix"), "_path_normpath") else "pure Python")
+
+
+def replay_case(ctx, obj):
+    """--replay: run the recorded case on the real code and on the model, print both and the monitor verdict"""
+    rep = obj.get("replay", obj)
+    case = rep.get("case") if isinstance(rep, dict) else None
+    if not case:
+        for d in obj.get("disagreements", []):
+            case = d.get("case")
+            break
+    if not case:
+        print("replay: no case recorded")
+        return 0
+    impl = Impl()
+    io = impl.run_case(case)
     try:
-        import shutil
-        shutil.rmtree(tmp)
-    except Exception:
-        pass
+        mo = core.split_cases(ctx.lean("C17", case)).get(core.case_id(case))
+    except core.LeanUnavailable as e:
+        mo = ["<model unavailable: %s>" % e]
+    for line, a, b in zip(case[1:], io, mo or []):
+        w = line.split()
+        print("%-9s %-60s impl=%-30s model=%-30s %s" % (w[0], " ".join(repr(unhx(x)) for x in w[1:]), a, b,
+                                                      "" if a == b else "<-- DIFFER"))
+    if case[-2].startswith("pjs "):
+        monitor(impl, case, ctx)
+        for f in ctx.failures:
+            print("monitor: %s: %s" % (f["kind"], f["what"]))
+        if not ctx.failures:
+            print("monitor: property holds on this input")
+    return 1 if (ctx.failures or io != mo) else 0
